@@ -392,7 +392,12 @@ jsoncons::expected<void,std::error_code> parse_primitive(jsoncons::span<char> to
     {
         std::size_t exponent;
         auto r = dec_to_integer(exponent_str.data(), exponent_str.size(), exponent);
-        JSONCONS_ASSERT(r);
+        if (!r)
+        {
+            // an exponent beyond the range of std::size_t: not a number this reader can represent, keep the text
+            visitor.string_value(jsoncons::string_view(token.data(), token.size()));
+            return result_type{};
+        }
 
         std::size_t n = num_str.size();
 
